@@ -1,23 +1,21 @@
 ID = 'C20'
 UNITS = {
     'math': dict(wrap='wrap.cc', new_block=64),
-    # the real block size of random_data's refill (readx(fd, 4096)): bigger stub buffer and heap blocks
-    'rand4k': dict(wrap='wrap.cc', new_block=4224, cxxflags=['-DVERIF_URANDOM_CAP=4096']),
 }
 BOUNDS = ('log2i: every positive value of all 8 integer types. gcd/reduce_fraction: definition (divides both, every common divisor '
           'divides it, coprime reduced terms, same ratio in 128-bit) for operands < 2^6 (quick) / < 2^8 (thorough) in uint8/16/32/64 and '
           'int32, plus the full-width identities gcd(x,0)=gcd(0,x)=gcd(x,x)=x, gcd(x,1)=1 for every value of all 8 types. '
           'random_int: every lo<=hi with hi-lo+1 representable, every byte of the random source symbolic; random_data: request '
-          'sizes <= 6 in two consecutive calls, source block sizes 1..16 (and the real 4096 in the thorough tier). '
+          'sizes <= 6 in two consecutive calls, source block sizes 1..16. '
           'Vector2/3/4<int32>: + - unary- (every input whose exact result fits int32), * / % scalar (operands in [-15,15] quick, '
           '[-127,127] thorough), !, ==, !=, norm1, dims (full width), dot/norm2 (components in [-4,4] quick, [-15,15] thorough), '
           'operator< laws on three full-width symbolic vectors, at(i), constructors, cross == definition and orthogonality for '
           'components in [-2,2] quick / [-4,4] thorough. Matrix4<int32>: identity, M*v (entries in [-4,4]), transposition '
-          '(full width), operator==, elementwise operators, A*B == definition and (AB)v == A(Bv) for entries in [-1,1].')
+          '(full width), operator==, elementwise operators, A*B == definition for entries in {0,1} (quick) / [-1,1] (thorough), (AB)v == A(Bv) for entries in {0,1}.')
 STUBS = [
     'phosg::scoped_fd("/dev/urandom") constructor/destructor/operator int and phosg::readx(int fd, size_t n) (Filesystem.cc) are replaced in '
     'props/C20/wrap.cc by definitions forwarding to the harness function verif_urandom(buf, n): it delivers BLOCK bytes per call (BLOCK = 1..16 '
-    'per cell instead of the 4096 requested; the unit rand4k / BLOCK=0 delivers exactly the n = 4096 requested bytes), every byte a solver input; '
+    'per cell instead of the 4096 requested), every byte a solver input; '
     'read errors / short reads of /dev/urandom are not modelled (readx throws in the real code)',
     '__cxa_thread_atexit / __cxa_atexit (destructor registration of the static fd and the thread_local buffer): no-ops (engine/rt/rt_model.c)',
 ]
@@ -31,7 +29,8 @@ OUTSIDE = [
     'give no verdict in 300 s on the default back end); signed overflow cases (undefined behaviour in C++) are excluded by assumption in every arithmetic harness',
     'random_int when hi - lo + 1 overflows int64 (hi - lo >= 2^63 - 1): `high - low + 1` is a signed overflow (undefined behaviour; UBSan aborts the '
     'replay build), see NOTES.md; the statistical quality (modulo bias) of random_int; /dev/urandom itself',
-    'random_data request sizes > 6 and more than two consecutive calls',
+    'random_data request sizes > 6 and more than two consecutive calls; the real refill block size 4096 (the query with the exact readx contract - one 4096-byte '
+    'block, 4096 symbolic bytes - exceeds 12 GB in propositional reduction): block sizes 1..16 exercise the same buffer.size()-relative arithmetic',
 ]
 ASSUMPTIONS = [
     'x86-64: int is 32 bits, long long 64 bits (log2i fix uses __builtin_clzll)',
@@ -92,9 +91,6 @@ def queries(tier):
     for b, n in ([(4, 5)] if not thorough else [(4, 0), (4, 5), (16, 6), (3, 20)]):
         q('random_str_b%d_%d' % (b, n), 'h_random.c', {'MODE': 2, 'BLOCK': b, 'N1': n}, 24, 300,
           desc='random_data(%d) (string form) has size %d and every byte from the source' % (n, n), bounds='block size %d, n == %d' % (b, n))
-    if thorough:
-        q('random_int_block4096', 'h_random.c', {'MODE': 0, 'BLOCK': 0}, 4100, 1500, mem_gb=12, unit='rand4k', tv_runs=10, cost=1500,
-          desc='random_int with the exact readx contract (one 4096-byte block per refill)', bounds='all lo <= hi with hi - lo <= 2^63 - 2')
     # ---- Vector2/3/4<int32_t> ----------------------------------------------------------------------------------------------
     mb = 127 if thorough else 15
     pb = 15 if thorough else 4
@@ -122,13 +118,18 @@ def queries(tier):
       desc='Matrix4() is the identity; (M v)_r == sum_c m[c][r] v_c; I*v == v (full width)', bounds='entries and components in [-4,4]')
     q('m4_transpose', 'h_mat.c', {'MODE': 1}, 18, 300, mem_gb=8,
       desc='transposition()/transpose(): m\'[c][r] == m[r][c]; twice == identity; operator== / != elementwise', bounds='full width')
-    q('m4_ops_lin', 'h_mat.c', {'MODE': 4, 'GROUP': 0}, 18, 600, mem_gb=8,
-      desc='Matrix4 +/- matrix, +/- scalar and compound forms == elementwise definition', bounds='every input whose exact result fits int32')
+    for ls, ln in ((0, 'matrix'), (1, 'scalar')):
+        q('m4_ops_lin_%s' % ln, 'h_mat.c', {'MODE': 4, 'GROUP': 0, 'LINSET': ls}, 18, 900, mem_gb=8, backend='kissat', cost=100,
+          desc='Matrix4 + and - with a %s operand, value-returning and compound forms (symbolic choice) == elementwise definition' % ln,
+          bounds='every input whose exact result fits int32')
     for g, gn in ((1, 'mul'), (2, 'div'), (3, 'mod')):
         q('m4_ops_%s' % gn, 'h_mat.c', {'MODE': 4, 'GROUP': g, 'MB': 15}, 18, 900, mem_gb=8, backend='kissat',
           desc='Matrix4 %s scalar and compound form == elementwise definition' % gn, bounds='entries and scalar in [-15,15]')
-    q('m4_mulm_eb1', 'h_mat.c', {'MODE': 2, 'EB': 1}, 18, 900, mem_gb=8, backend='kissat', cost=300,
-      desc='(A B)[c][r] == sum_z A[z][r] B[c][z] (phosg accumulates in double), operator* and operator*=', bounds='entries in [-1,1]')
-    q('m4_assoc_eb1', 'h_mat.c', {'MODE': 3, 'EB': 1}, 18, 900, mem_gb=8, backend='kissat', cost=300,
-      desc='(A B) v == A (B v)', bounds='entries and components in [-1,1]')
+    q('m4_mulm_01', 'h_mat.c', {'MODE': 2, 'EB': 1, 'NNBITS': 1}, 18, 900, mem_gb=8, backend='kissat', cost=300,
+      desc='(A B)[c][r] == sum_z A[z][r] B[c][z] (phosg accumulates in double), operator* and operator*=', bounds='entries in {0,1}')
+    if thorough:
+        q('m4_mulm_eb1', 'h_mat.c', {'MODE': 2, 'EB': 1}, 18, 1500, mem_gb=8, backend='kissat', cost=1500,
+          desc='(A B)[c][r] == sum_z A[z][r] B[c][z] (phosg accumulates in double), operator* and operator*=', bounds='entries in [-1,1]')
+    q('m4_assoc_01', 'h_mat.c', {'MODE': 3, 'EB': 1, 'NNBITS': 1}, 70, 900, mem_gb=8, backend='kissat', cost=300,
+      desc='(A B) v == A (B v)', bounds='entries and components in {0,1}')
     return qs
